@@ -449,6 +449,15 @@ def run_freeze(case, ctx, items):
   if rng.random() < 0.3:
     ops.append({"op": "add", "section": "Variables", "key": "fresh_%d" % rng.randint(0, 99), "value": "2.5"})
     ctx.cls("variable_added")
+  # every key of a small section removed in a file that HAS a [Variables] section (the then-empty section must be
+  # treated as in a file without one)
+  small = [(s_, its) for s_, its in templ if 1 <= len(its) <= 2 and not s_.startswith("Table-Form") and s_ != "Tabulation"]
+  if small and rng.random() < 0.45:
+    s_, its = rng.choice(small)
+    if not any(o["section"] == s_ for o in ops):
+      for k_, v_ in its:
+        ops.append({"op": "remove", "section": s_, "key": k_})
+      ctx.cls("last_key_of_section_removed_with_variables_present")
   if not ops:
     ctx.count("freeze_without_ops")
     return
@@ -468,12 +477,17 @@ def run_freeze(case, ctx, items):
     return
   wants = []
   ok = False
+  matches = []
   for e in (e1, e2):
     t2 = emit.items_text(e)
     w = api_outcome(t2) if route == "api" else outcome(routes.potable_main(["@IN", "@OUT"], t2))
     wants.append(w)
-    if got[0] == w[0] and (got[0] != "ok" or same_output(m["target"], got[1], w[1])):
+    hit = got[0] == w[0] and (got[0] != "ok" or same_output(m["target"], got[1], w[1]))
+    matches.append(hit)
+    if hit:
       ok = True
+  if e1 != e2 and matches[0] != matches[1]:
+    ctx.cls("last_key_removal_reading:" + ("section_dropped" if matches[0] else "empty_section_kept"))
   if got[0] == "internal" and any(w[0] == "internal" for w in wants):
     ok = True
   if not ok:
@@ -534,9 +548,16 @@ def run_case(case, ctx):
     if e1 == e2:
       break
   ok = False
+  matches = []
   for w in wants:
-    if got[0] == w[0] and (got[0] != "ok" or same_output(m["target"], got[1], w[1])):
+    hit = got[0] == w[0] and (got[0] != "ok" or same_output(m["target"], got[1], w[1]))
+    matches.append(hit)
+    if hit:
       ok = True
+  if len(wants) == 2 and matches[0] != matches[1]:
+    # the two readings of "the last key of a section was removed" are distinguishable here: note which one the code took
+    # (cross_check demands that it is the same one in every case of the run)
+    ctx.cls("last_key_removal_reading:" + ("section_dropped" if matches[0] else "empty_section_kept"))
   if any(w[0] == "internal" for w in wants) and got[0] == "internal":
     ctx.count("both_internal_error")
     ok = True
@@ -584,3 +605,18 @@ def run_case(case, ctx):
       r2 = runner(["@IN", "--item-value", skey] + cli_args(ops), text)
       if r2["rc"] != 0 or re.sub(r"\s+", " ", r2["out"].strip()) != re.sub(r"\s+", " ", val.strip()):
         ctx.violation("item_value", "--item-value %s -> rc=%s %r expected %r" % (skey, r2["rc"], r2["out"].strip()[:100], val[:100]), what="item_value")
+
+
+def cross_check(merged):
+  """The reading of 'removing the last key of a section' (the section disappears / an empty section stays) is the
+  code's choice, but it has to be ONE choice: the same for every model, with or without [Variables], on every route."""
+  seen = {}
+  for r in merged:
+    for c in r["classes"]:
+      if c.startswith("last_key_removal_reading:"):
+        seen.setdefault(c.split(":", 1)[1], []).append(r["id"])
+  if len(seen) >= 2:
+    minority = min(seen, key=lambda k: len(seen[k]))
+    return [(seen[minority][0], "inconsistent_last_key_removal", "removing the last key of a section %s in %d case(s) but %s in %d case(s) of this run" % (
+      minority.replace("_", " "), len(seen[minority]), [k for k in seen if k != minority][0].replace("_", " "), sum(len(v) for k, v in seen.items() if k != minority)), {"what": "inconsistent_last_key_removal"})]
+  return []
